@@ -13,6 +13,14 @@ an administrator, databases/users with a fixed privilege matrix, then
     GRANT/REVOKE x privilege x database                                (flip test)
 Oracle per insufficient case: HTTP 401/403 (or only error results) AND the catalogue+data digest taken with
 administrator credentials is unchanged AND the answer carries none of the stored values.
+
+Stage 3 (lib/c19_privsm.py, a ts-server of its own): explicit-state breadth-first exploration of the privilege state machine
+of one non-admin user: state = what SHOW GRANTS lists per database (absent | NO PRIVILEGES | READ | WRITE | ALL PRIVILEGES),
+transitions = every GRANT / REVOKE x READ / WRITE / ALL x database sent by the administrator, every (state, transition) on a
+fresh user reached by the shortest statement path.  Reference model = bit algebra (GRANT ors the named bits in, REVOKE clears
+exactly the named bits, other databases untouched); after every transition SHOW GRANTS, a SELECT and a /write per database
+with the user's credentials (and, at the end, the stored probe points) must equal the model.  Plus the administrator flag
+(GRANT/REVOKE ALL PRIVILEGES TO/FROM u) in several database states.
 """
 import base64, hashlib, hmac, http.client, json, os, re, shutil, socket, struct, sys, time, urllib.parse
 
@@ -26,7 +34,9 @@ PKG = "lib/util/lifted/influx/httpd"
 LEVEL = "exploration"
 RULE = ("distinct (route pattern, method, request variant | statement example, credential class, transport) cases in "
         "which the credentials are insufficient for the request and the same request sent by the administrator "
-        "(against the scratch twin of the target) reaches the handler (status other than 404/405)")
+        "(against the scratch twin of the target) reaches the handler (status other than 404/405); plus, for the privilege state "
+        "machine, distinct (number of databases, concrete privilege state as listed by SHOW GRANTS, GRANT/REVOKE statement [, second "
+        "statement]) pairs executed on the real server on a fresh user and observed through SHOW GRANTS and the user's own reads and writes")
 ASSUMPTIONS = [
     "route table = gorilla mux of httpd.NewHandler(config{AuthEnabled:true}) per product type (basic, logkeeper) plus the "
     "prefixes ServeHTTP dispatches before the mux; flight/arrow and ts-meta/ts-store ports are not HTTP API endpoints of this property",
@@ -36,6 +46,9 @@ ASSUMPTIONS = [
     "backup, database creation: admin); liveness/status = /ping, /status, /health*, OPTIONS pre-flight, /debug/vars, /debug/query (shard status)",
     "the digest (SHOW DATABASES/USERS/GRANTS/MEASUREMENTS/RETENTION POLICIES/SUBSCRIPTIONS/CONTINUOUS QUERIES/STREAMS, count(*) of the "
     "fixture databases, login probe of the victim user, write probe) observes every effect a request of the sweep can have",
+    "privilege state machine: the reference model is bit algebra over READ=1, WRITE=2, ALL=3 (GRANT ors, REVOKE clears, other databases "
+    "untouched); 'absent' and 'NO PRIVILEGES' in SHOW GRANTS both mean none; a privilege state is fully described by what SHOW GRANTS lists "
+    "(thorough checks this with all two-statement sequences); users are independent of each other, so the jobs run 16 at a time",
 ]
 
 SECRET = "c19-Shared-Secret_For.Bearer"
@@ -1703,8 +1716,12 @@ def run_replay(path, s1, scratch, rep, deadline_at):
 CLAIMED = True
 MANIFEST = dict(
     level="exploration",
-    engine="enumx + black-box driver",
-    technique="exhaustive enumeration of a finite table on the real server: every route of the live gorilla mux (walked in-package, per "
+    engine="enumx + black-box driver + explicit-state BFS (lib/c19_privsm.py)",
+    technique="explicit-state model checking of the privilege state machine on the real server (BFS from a fresh user over the concrete "
+              "states SHOW GRANTS can list for two databases [thorough: also three], every GRANT/REVOKE x READ/WRITE/ALL x database "
+              "transition from every state executed on a user of its own, reference model = bit algebra, observed through SHOW GRANTS and "
+              "the user's own SELECT and /write per database, stored probe points verified after a visibility barrier; thorough adds every "
+              "two-statement sequence from every state); and exhaustive enumeration of a finite table on the real server: every route of the live gorilla mux (walked in-package, per "
               "product type) and every /debug prefix of ServeHTTP x request variants x 8 credential classes x 4 credential transports, and "
               "every statement type that declares RequiredPrivileges (go/ast) x the same classes; oracle = HTTP status + catalogue/data "
               "digest taken with administrator credentials before and after every request + stored-value sentinels in the answer",
@@ -1714,7 +1731,17 @@ MANIFEST = dict(
          "sent with no, malformed, unknown-user, wrong-password, read-only, write-only, other-database and administrator credentials over "
          "basic, URL, Token and bearer transports. Insufficient credentials must be turned away (401/403 or error-only results), must leave "
          "the catalogue+data digest, the server-control probe and the file system probe unchanged and must not return stored values; "
-         "GRANT/REVOKE must flip exactly one user's ability on exactly one database. A generator puts a foreign database into every source "
+         "GRANT/REVOKE must flip exactly one user's ability on exactly one database. For that sentence the privilege state machine "
+         "is model checked explicitly: breadth first from a freshly created user, state = what SHOW GRANTS lists per database (absent, NO "
+         "PRIVILEGES, READ, WRITE, ALL PRIVILEGES; 25 concrete = 16 model states for two databases whose names share a prefix), all 12 "
+         "transitions GRANT|REVOKE READ|WRITE|ALL [PRIVILEGES] ON db from every state (300 = all 192 model transitions, including every "
+         "REVOKE of a privilege that is not held), each on a fresh user brought to the state by the shortest statement path, all on the real "
+         "server over HTTP. After each transition SHOW GRANTS must list exactly the model's privileges (GRANT ors bits in, REVOKE clears "
+         "exactly the named bits, the other database untouched) and, with the user's credentials, a SELECT of a seeded value is allowed iff "
+         "READ and a /write is accepted iff WRITE on each database (basic auth; URL and bearer once per state); after a visibility barrier "
+         "exactly the probe points the model allows are stored; a REVOKE of unheld privileges must leave the reference observation of its "
+         "state; GRANT/REVOKE ALL PRIVILEGES TO/FROM u (administrator flag) in 3 database states keeps the database privileges and the "
+         "per-database rules. Thorough: three databases (125 states x 24 transitions) and all 6400 two-statement sequences. A generator puts a foreign database into every source "
          "position the grammar offers (plain, list, regex, each side of every join spelling with measurement and sub-query operands, "
          "sub-query depth 1-2, union arms, CTE, INTO target/source, SHOW ... ON / FROM); the needed privilege there comes from a "
          "reflection walk over the parsed AST (every Measurement node), not from RequiredPrivileges. Exhaustive over the finite table; "
@@ -1722,6 +1749,8 @@ MANIFEST = dict(
     note="Trusts: the digest observes every effect (SHOW statements, raw rows of the fixture databases, login/write probes); the rule table "
          "that assigns a needed privilege to non-/query routes and the floor table for statements (c19.py); one example per statement type. "
          "Not covered: arrow-flight port, ts-meta/ts-store HTTP ports, TLS/white-list, user lock-out timing, rwuser accounts, log-store "
-         "reads with stored records (records cannot be written in this environment). Known findings on the unchanged tree: /debug/pprof anonymous, log-store management API without "
-         "authorisation (POST /failpoint and POST /api/v1/tsdb/{tsdb} were found by this check and are fixed in /repo).",
+         "reads with stored records (records cannot be written in this environment); the privilege machine of rwuser accounts and of more than "
+         "one user at a time. Known findings on the unchanged tree: /debug/pprof anonymous, log-store management API without "
+         "authorisation, GRANT READ|WRITE overwrites the held privilege of that database instead of adding to it (POST /failpoint and "
+         "POST /api/v1/tsdb/{tsdb} were found by this check and are fixed in /repo).",
 )
